@@ -34,6 +34,8 @@ FAMILIES = {
     # twelve samples with one or two experiments each: a generator that makes one plate per sample makes more than ten plates
     # (plate names "..._10", "..._11" next to "..._1")
     "M": [("s%02d" % (i % 12), "a", 1.0 + i // 12, "b", 1.0, "u%d" % (i % 3)) for i in range(14)],
+    # 120 samples with one experiment each: more than a hundred generated plates ("..._100" next to "..._10")
+    "M2": [("s%03d" % i, "a", 1.0, "b", 1.0, "u%d" % (i % 3)) for i in range(120)],
     # like A but with a vehicle-only (all-control) experiment and a zero-dose treatment among the unobserved rows
     "E": [("s1", "a", 1.0, "b", 1.0, "obs"), ("s1", "", 0.0, "", 0.0, "u1"), ("s1", "b", 1.0, "c", 1.0, "u1"),
           ("s2", "a", 1.0, "b", 1.0, "u2"), ("s2", "c", 0.0, "a", 1.0, "u2"), ("s1", "a", 1.0, "c", 1.0, "u3")],
@@ -87,10 +89,14 @@ def family(fam):
 
 def build(ctx, fam, R, all_observed=False, all_unobserved=False):
     rows = family(fam)[:R]
-    obs = [ctx.real("ob%d" % i, positive=True) for i in range(R)]
-    for i in range(R):
-        for j in range(i):
-            ctx.assume(obs[i] != obs[j], "observation tags pairwise distinct")
+    if R > 24:
+        # large screens: concrete pairwise distinct tags (the operations only move observation values around)
+        obs = [0.001 * (i + 1) for i in range(R)]
+    else:
+        obs = [ctx.real("ob%d" % i, positive=True) for i in range(R)]
+        for i in range(R):
+            for j in range(i):
+                ctx.assume(obs[i] != obs[j], "observation tags pairwise distinct")
     if all_observed:
         mask = [True] * R
     elif all_unobserved:
@@ -104,10 +110,10 @@ def build(ctx, fam, R, all_observed=False, all_unobserved=False):
 def tag_index(ctx, v, tags):
     """index of the input row whose (unforgeable) observation tag this value is, or None"""
     for j, t in enumerate(tags):
-        if ctx.symbolic:
+        if ctx.symbolic and isinstance(t, E.SymReal):
             if isinstance(v, E.SymReal) and z3.eq(z3.simplify(v.e), z3.simplify(t.e)):
                 return j
-        else:
+        elif not isinstance(v, E.SymReal):
             if float(v) == float(t):
                 return j
     return None
@@ -133,7 +139,7 @@ def match_rows(ctx, out, rows, tags):
     return idx, attrs_ok, t
 
 
-def fixture_values(R=16):
+def fixture_values(R=121):
     import random
     out = []
     for seed in (1, 2, 3):
